@@ -63,8 +63,15 @@ func NewRefWallet(mnemonic, pass string) (*RefWallet, error) {
 }
 
 // Addr derives the external address at index i.
-func (w *RefWallet) Addr(i uint32) (*RefAddr, error) {
-	c := refChild(w.ext, i)
+func (w *RefWallet) Addr(i uint32) (*RefAddr, error) { return w.AddrBranch(0, i) }
+
+// AddrBranch derives the address at index i of branch 0 (external) or 1 (internal).
+func (w *RefWallet) AddrBranch(branch, i uint32) (*RefAddr, error) {
+	bk := w.ext
+	if branch != 0 {
+		bk = refChild(w.acct, branch)
+	}
+	c := refChild(bk, i)
 	redeem := append([]byte{0x51, 33}, c.pub...)
 	redeem = append(redeem, 0x51, 0xae) // OP_1 <pub> OP_1 OP_CHECKMULTISIG
 	h := sha256.Sum256(redeem)
